@@ -19,6 +19,9 @@ from sim import gen
 from sim.common import gen_perm, install_validator_order
 from sim.world import attempt, norm
 
+# the registry exactly as the library leaves it after import
+PRISTINE_REGISTER = dict(format_checker._callable_register)  # pylint: disable=protected-access
+
 PROP = "C16"
 ENGINE = "H"
 RULE = (
@@ -45,7 +48,7 @@ ASSUMPTIONS = [
 REDUCE_ROOTS = (("ops",),)
 
 NAMES = ["uuid", "date-time", "fmt-a", "fmt_b", "", "with space", "émoji-✓", "sim-unregistered", "x", "UUID"]
-KINDS = ["String", "Element", "Array", "Prop", "AnyOfNull"]
+KINDS = ["String", "Element", "Array", "Prop", "AnyOfNull", "Validator", "SavedValidators"]
 LEAP_SECOND_DAYS = [
     (1972, 6, 30), (1972, 12, 31), (1990, 12, 31), (1998, 12, 31),
     (2005, 12, 31), (2012, 6, 30), (2015, 6, 30), (2016, 12, 31),
@@ -284,7 +287,29 @@ def make_element(kind, name):
         return Element(properties={"p": Property(String(format=name))})
     if kind == "AnyOfNull":
         return AnyOf(String(format=name), Null())
+    if kind == "Validator":
+        # validators are public API and "may be used directly" (docs); a
+        # retained Format object must still consult the current registry
+        from statham.schema.validation import Format
+
+        return _DirectValidator([Format(name)])
+    if kind == "SavedValidators":
+        return _DirectValidator(list(String(format=name).validators))
     raise ValueError(kind)
+
+
+class _DirectValidator:
+    """Calls retained validator objects the way Element.__call__ does."""
+
+    def __init__(self, validators):
+        self.validators = validators
+
+    def __call__(self, value):
+        from statham.schema.elements.base import UNBOUND_PROPERTY
+
+        for validator in self.validators:
+            validator(value, UNBOUND_PROPERTY)
+        return value
 
 
 def wrap(kind, value):
@@ -298,13 +323,15 @@ def wrap(kind, value):
 
 def exec_case(case, log, stats):
     install_validator_order(case.get("perm"))
-    register = format_checker._callable_register  # pylint: disable=protected-access
-    saved = dict(register)
+    # pylint: disable=protected-access
+    saved = dict(PRISTINE_REGISTER)
+    # start every run from the registry as it is right after import, whatever
+    # earlier runs in this process did and however the register is stored
+    format_checker._callable_register = dict(saved)
     try:
         return _exec(case, log, stats, saved)
     finally:
-        register.clear()
-        register.update(saved)
+        format_checker._callable_register = dict(saved)
 
 
 def _exec(case, log, stats, saved):
@@ -361,13 +388,13 @@ def _exec(case, log, stats, saved):
         if not isinstance(inner, str):
             nonstrings += 1
             stats.inc("nonstring_values")
-            if ekind in ("Element",):
+            if ekind in ("Element", "Validator"):
                 expected = "accept"
             elif ekind == "AnyOfNull":
                 expected = "accept" if inner is None else "reject"  # type, not format
             else:
                 expected = "reject"  # String's own type check, not the format
-            if ekind == "Element" and verdict != "accept":
+            if ekind in ("Element", "Validator") and verdict != "accept":
                 return {
                     "invariant": "nonstring_rejected_by_format",
                     "op_index": idx,
